@@ -697,6 +697,8 @@ def determinism_probe(items, seed, n):
             c["plan"] = plan
             a = proc.run_case(c)
             b = proc.run_case(c)
+            if a["timeout"] or b["timeout"]:
+                continue        # a hang is cut off by the wall clock at an arbitrary point; the main pass reports it as a violation
             ka = (a["exit"], a["stdout"], a["stderr"], a["files_after"], a["raw_log"])
             kb = (b["exit"], b["stdout"], b["stderr"], b["files_after"], b["raw_log"])
             if ka != kb:
